@@ -488,6 +488,17 @@ def gen_deep2(rng, shape):
                 body = b''.join(nm26(0x53, start + k) for k in range(1, n + 1))      # plain concatenation, any length
                 scope, e = (rng.choice(chain), b'\\' + body) if start == 0 else (chain[start], body)
             sim.cmds.append([7, scope, len(e)] + list(e))
+        # every boundary once, from the innermost scope: name declared d parents up, d parents up by '^'
+        for d in marks + [depth - 1, depth, depth + 1]:
+            if 0 <= d <= depth:
+                h = depth - d + 1
+                if h <= depth:
+                    sim.cmds.append([7, chain[depth], 4] + list(nm26(0x53, h)))
+                e = b'^' * d
+                sim.cmds.append([7, chain[depth], len(e)] + list(e))
+            elif d == depth + 1:
+                e = b'^' * d
+                sim.cmds.append([7, chain[depth], len(e)] + list(e))
     else:
         width = rng.choice([130, 200, 256, 257, 300])
         host = sim.create(SCOPEBLOCK, 0, b'WIDE')
@@ -513,6 +524,13 @@ def gen_deep2(rng, shape):
                 sim.cmds.append([9, host, rng.choice([d, width - 1, width, 255, 256])])
             else:
                 sim.cmds.append([7, leaf, 4] + list(rng.choice([b'WIDE', b'NONE', nm26(0x53, width)])))
+        for d in marks + [width - 1]:
+            if d < width:
+                sim.cmds.append([7, leaf, 4] + list(nm26(0x53, d)))                 # upward search ends in the wide scope
+                e = b'\\WIDE' + nm26(0x53, d)
+                sim.cmds.append([7, leaf, len(e)] + list(e))
+                sim.cmds.append([9, host, d])
+        sim.cmds.append([8, host])
     sim.cmds.append([6])
     return sim.flat()
 
@@ -606,6 +624,9 @@ class C13(flow.Spec):
             'tree; a separate stream with one illegal edit followed by arbitrary edits), link digest after every edit and full dumps; '
             'Find from random live scopes on expressions built from the current tree (absolute, ^-prefixed, single segment, multi segment, '
             'dual/multi name prefixes) and perturbed (truncated, extra/wrong segment, odd bytes) plus arbitrary bytes; '
+            'memo rounds: a lookup, edits of one kind chosen to change its answer (middle/tail insert-after, append, detach/free of the answer, '
+            'creation only, detach of an enclosing scope, re-attachment of a subtree), the identical lookup again; chains of 66-97 and 130-300 nested '
+            'scopes and scopes with 130-300 children with lookups at every power-of-two boundary (bare names declared d parents up, ^ runs, long paths, ArgAt); '
             'non-trivial = at least 4 edits and one lookup or dump; distinct = distinct command lists')
     assumptions = ['*Object pointers are modelled as pool positions (objects never move in objPool); a nil pointer is None',
                    'the pool holds fewer than 2^32-1 objects (legal creation requires room below InvalidIndex)',
